@@ -382,9 +382,25 @@ def st_steered_hbond(files):
         "delta": st.sampled_from([1e-5, 1e-4, 1e-3, 1e-2, 0.1]), "side": st.sampled_from([-1, 1]), "swap": st.booleans()})
 
 
+@functools.lru_cache(maxsize=None)
+def two_contact_pairs(fn):
+    """neighbouring residue pairs of a corpus file with exactly two possibly-true base-base contacts: the pairs
+    whose existence hangs on every single contact"""
+    s3 = corpus.structure(fn)
+    rr = {r.idx: r for r in geomref.from_structure3d(s3)}
+    out = []
+    for i, j in neighbour_pairs(fn):
+        cs, _ = geomref.base_contacts(rr[i], rr[j])
+        if len([c for c in cs if not c.via_o2]) == 2:
+            out.append((i, j))
+    return out
+
+
 def build_steered_hbond(case, info=None):
     s3 = corpus.structure(case["file"])
     pairs = neighbour_pairs(case["file"])
+    if case["what"] in ("base", "angle") and case["pair"] % 4 != 0 and two_contact_pairs(case["file"]):
+        pairs = two_contact_pairs(case["file"])
     i, j = pairs[case["pair"] % len(pairs)]
     if case.get("swap"):
         i, j = j, i
